@@ -14,11 +14,16 @@ Oracle handlers for C01.
 namespace OracleC01
 open Common Ring C01
 
-def parseCfg (s : String) : Option Cfg :=
+/-- `rf,za,timeout[,excludedZone|excludedZone…]` (`~` = the empty zone) -/
+def parseCfgEx (s : String) : Option (Cfg × List String) :=
   match s.splitOn "," with
   | [rf, za, to] => do
-    pure { rf := (← rf.toNat?), zoneAware := za == "1", hbTimeout := (← to.toInt?) }
+    pure ({ rf := (← rf.toNat?), zoneAware := za == "1", hbTimeout := (← to.toInt?) }, [])
+  | [rf, za, to, ex] => do
+    pure ({ rf := (← rf.toNat?), zoneAware := za == "1", hbTimeout := (← to.toInt?) }, (ex.splitOn "|").map str?)
   | _ => none
+
+def parseCfg (s : String) : Option Cfg := (parseCfgEx s).map (·.1)
 
 def showIds (l : List Inst) : String := if l.isEmpty then "-" else ",".intercalate (l.map (showStr ·.id))
 
@@ -55,8 +60,10 @@ def parseOpName (s : String) : Option Op :=
 def handleGet (f : List String) : String × String × String :=
   match f with
   | [cfgS, nowS, descS, keyS, opS, apiS, toksS, idsS, meS, errS] =>
-    match parseCfg cfgS, nowS.toInt?, parseDesc descS, keyS.toNat?, parseOpName opS, natList? toksS, meS.toNat? with
-    | some cfg, some now, some d, some key, some op, some obsToks, some obsMe =>
+    match parseCfgEx cfgS, nowS.toInt?, parseDesc descS, keyS.toNat?, parseOpName opS, natList? toksS, meS.toNat? with
+    | some (cfg, excluded), some now, some d0, some key, some op, some obsToks, some obsMe =>
+      -- `updateRingState` drops the instances of cfg.ExcludedZones before indexing
+      let d := excludeZones excluded d0
       let rfCall : Int := if apiS == "get" then cfg.rf else ((apiS.drop 4).toString.toInt?).getD 0
       -- correspondence (a): the realised token circle
       let tokOk := tokensAccepted d obsToks
@@ -72,9 +79,11 @@ def handleGet (f : List String) : String × String × String :=
       let spec := specGet cfg op d key now
       let obsOk := errS == "ok"
       let obsIds := if idsS == "-" then [] else idsS.splitOn ","
+      -- the specification is only meaningful on ring contents the property quantifies over
+      let wf := decide (WFRing d) && decide (TokensU32 d)
       let j : List String :=
-        if !effective then []
-        else if errS == "panic" || errS == "inconsistentTokens" || errS.startsWith "other" then ["unexpected-failure-" ++ errS]
+        if !effective || !wf then []
+        else if errS != "ok" && errS != "emptyRing" && errS != "tooManyUnhealthy" then ["unexpected-failure-" ++ errS]
         else if obsOk && !spec.ok then ["succeeds-without-healthy-majority"]
         else if !obsOk && spec.ok then ["fails-although-majority-healthy"]
         else if !obsOk then []
@@ -88,7 +97,8 @@ def handleGet (f : List String) : String × String × String :=
       let all := sortedTokens d
       let tags := s!"get za={cfg.zoneAware} rf={cfg.rf} op={opName op} n={bucket d.length} res={errS} " ++
         s!"ext={min nExt 2} unh={min nUnh 2} key={keyClass all key} maxtok={all.contains maxToken} " ++
-        s!"tokenless={d.any (·.tokens.isEmpty)} dropped={obsToks != all} api={(apiS.take 3).toString}"
+        s!"tokenless={d.any (·.tokens.isEmpty)} dropped={obsToks != all} api={(apiS.take 3).toString} " ++
+        s!"ro={d.any (·.ro)} excl={!excluded.isEmpty} wf={wf}"
       (diff, judge, tags)
     | _, _, _, _, _, _, _ => ("bad-input", "-", "-")
   | _ => ("bad-fields", "-", "-")
